@@ -130,22 +130,32 @@ MUTANTS = [
         } else {
             self.insert_with_memory(key, value.clone());
         }''')]),
- ("c01_async_store_ignored_on_existing_key", ["C01", "C11"], [(A, '''        // If the key is already cached, the new value replaces the old one
-        self.remove_existing_entry(key, &mut order);
-
-        // Handle entry-count limits
-        self.handle_entry_limit_eviction(&mut order);''', '''        if self.cache.contains_key(key) {
+ ("c01_async_store_ignored_on_existing_key", ["C01", "C11"], [(A, '''        if !self.renew_existing_key(key, &mut order) {
+            // Handle entry-count limits
+            self.handle_entry_limit_eviction(&mut order);
+        }''', '''        if self.cache.contains_key(key) {
             return;
         }
-        self.remove_existing_entry(key, &mut order);
-
-        // Handle entry-count limits
-        self.handle_entry_limit_eviction(&mut order);''')]),
- ("c04_async_restore_keeps_old_queue_entry", ["C04"], [(A, '''        if self.cache.remove(key).is_some() {
+        if !self.renew_existing_key(key, &mut order) {
+            // Handle entry-count limits
+            self.handle_entry_limit_eviction(&mut order);
+        }''')]),
+ ("c04_async_restore_keeps_old_queue_entry", ["C04"], [(A, '''        if self.cache.contains_key(key) {
             order.retain(|k| k != key);
-        }
-    }''', '''        let _ = (key, order);
-    }''')]),
+            true''', '''        if self.cache.contains_key(key) {
+            true''')]),
+ ("c04_async_restore_into_full_cache_evicts", ["C04"], [(A, '''        if !self.renew_existing_key(key, &mut order) {
+            // Handle entry-count limits
+            self.handle_entry_limit_eviction(&mut order);
+        }''', '''        let _ = self.renew_existing_key(key, &mut order);
+        self.handle_entry_limit_eviction(&mut order);''')]),
+ ("c03_async_replace_by_remove_then_insert", ["C03"], [(A, '''        if self.cache.contains_key(key) {
+            order.retain(|k| k != key);
+            true''', '''        if self.cache.remove(key).is_some() {
+            order.retain(|k| k != key);
+            false''')]),
+ ("c05_async_replace_counts_old_value", ["C05"], [(A, '''                    .filter(|entry| entry.key() != key)
+''', '''''')]),
  ("c01_thread_store_truncated_key", ["C01"], [(T, '''    pub fn insert(&self, key: &str, value: R) {
         let key = key.to_string();''', '''    pub fn insert(&self, key: &str, value: R) {
         let key = if key.len() > 6 { key[..6].to_string() } else { key.to_string() };'''), (T, '''            let c = c.borrow();
@@ -336,8 +346,17 @@ impl<T1, T2, T3>''')]),
                             self.remove_key(&evict_key);
                         }''')]),
  ("c14_thread_scope_attribute_ignored", ["C14", "C19"], [(MU, '''                    attrs.scope = if scope_str == "thread" {
-                        quote! { cachelito_core::CacheScope::ThreadLocal }''', '''                    attrs.scope = if scope_str == "thread" && false {
-                        quote! { cachelito_core::CacheScope::ThreadLocal }''')]),
+                        quote! { cachelito_core::CacheScope::ThreadLocal }''', '''                    attrs.scope = if scope_str == "thread" {
+                        quote! { cachelito_core::CacheScope::Global }''')]),
+ ("c14_thread_lfu_uses_shared_static", ["C14"], [(MS, '''        thread_local! {
+            static #cache_ident: RefCell<std::collections::HashMap<String, CacheEntry<#ret_type>>> = RefCell::new(std::collections::HashMap::new());''', '''        static __SHARED: once_cell::sync::Lazy<parking_lot::Mutex<std::collections::HashMap<String, #ret_type>>> =
+            once_cell::sync::Lazy::new(|| parking_lot::Mutex::new(std::collections::HashMap::new()));
+        if let Some(v) = __SHARED.lock().get(&#key_expr) {
+            return v.clone();
+        }
+        struct __Put(String);
+        thread_local! {
+            static #cache_ident: RefCell<std::collections::HashMap<String, CacheEntry<#ret_type>>> = RefCell::new(std::collections::HashMap::new());''')]),
  ("c19_limit_spliced_into_ttl", ["C19"], [(MS, '''        &attrs.limit,
         &attrs.max_memory,
         &attrs.policy,
@@ -379,6 +398,76 @@ impl<T1, T2, T3>''')]),
             __r
         };
 ''')]),
+ ("c18_sync_clear_two_sections", ["C18"], [(MS, '''                            let mut order_write = #order_ident.lock();
+                            #cache_ident.write().clear();
+                            order_write.clear();''', '''                            #cache_ident.write().clear();
+                            #order_ident.lock().clear();''')]),
+ ("c18_async_clear_two_sections", ["C18"], [(MA, '''                        let mut order_write = #order_ident.lock();
+                        #cache_ident.clear();
+                        order_write.clear();''', '''                        #cache_ident.clear();
+                        #order_ident.lock().clear();''')]),
+ ("c18_async_expiry_two_sections", ["C18"], [(A, '''            let mut order = self.order.lock();
+            self.cache.remove(key);
+            order.retain(|k| k != key);''', '''            self.cache.remove(key);
+            let mut order = self.order.lock();
+            order.retain(|k| k != key);''')]),
+ ("c18_async_insert_store_before_order_lock", ["C18"], [(A, '''        let mut order = self.order.lock();
+
+        // If the key is already cached, the new value replaces the old one
+        self.remove_existing_entry(key, &mut order);
+
+        // Handle entry-count limits
+        self.handle_entry_limit_eviction(&mut order);
+
+        // Add the new entry to the order queue
+        order.push_back(key.to_string());
+
+        // Insert into cache with frequency initialized to 0
+        self.cache.insert(key.to_string(), (value, timestamp, 0));''', '''        {
+            let mut order = self.order.lock();
+
+            // If the key is already cached, the new value replaces the old one
+            self.remove_existing_entry(key, &mut order);
+
+            // Handle entry-count limits
+            self.handle_entry_limit_eviction(&mut order);
+
+            // Add the new entry to the order queue
+            order.push_back(key.to_string());
+        }
+
+        // Insert into cache with frequency initialized to 0
+        self.cache.insert(key.to_string(), (value, timestamp, 0));''')]),
+ ("c18_global_lru_get_returns_value_of_concurrent_key", ["C18"], [(G, '''                EvictionPolicy::LRU => {
+                    // Move key to end of order queue (most recently used)
+                    move_key_to_end(&mut self.order.lock(), key);
+                }''', '''                EvictionPolicy::LRU => {
+                    // Move key to end of order queue (most recently used)
+                    move_key_to_end(&mut self.order.lock(), key);
+                    if let Some(last) = self.order.lock().back().cloned() {
+                        result = self.map.read().get(&last).map(|e| e.value.clone());
+                    }
+                }''')]),
+ ("c17_async_get_holds_shard_guard_while_locking_queue", ["C17"], [(A, '''                drop(entry_ref);
+
+                // Record cache hit''', '''                let _keep = entry_ref;
+
+                // Record cache hit''')]),
+ ("c17_stats_reset_takes_registry_write_then_calls_list", ["C17"], [(INV, '''    pub fn invalidate_cache(&self, cache_name: &str) -> bool {
+        if let Some(callback) = self.clear_callbacks.read().get(cache_name) {''', '''    pub fn invalidate_cache(&self, cache_name: &str) -> bool {
+        let _w = self.cache_metadata.write();
+        let _r = self.tag_to_caches.read();
+        if let Some(callback) = self.clear_callbacks.read().get(cache_name) {'''), (INV, '''    pub fn invalidate_by_tag(&self, tag: &str) -> usize {
+        let cache_names = self''', '''    pub fn invalidate_by_tag(&self, tag: &str) -> usize {
+        let _w = self.tag_to_caches.write();
+        let _r = self.cache_metadata.read();
+        drop(_r);
+        drop(_w);
+        let _w2 = self.tag_to_caches.write();
+        let _r2 = self.cache_metadata.read();
+        drop(_r2);
+        drop(_w2);
+        let cache_names = self''')]),
  ("c17_sync_callback_lock_order_inverted", ["C17"], [(MS, '''                        let mut order_write = #order_ident.lock();
                         let mut map_write = #cache_ident.write();
 ''', '''                        let mut map_write = #cache_ident.write();
